@@ -22,8 +22,9 @@ VERIF = os.path.dirname(os.path.dirname(os.path.abspath(__file__)))
 FEATURE_SETS = {
     "none": [],
     "full": ["autocomplete", "docgen", "batteries"],
+    "derive": ["derive"],
 }
-HARNESS_FEATURES = {"none": [], "full": ["full"]}
+HARNESS_FEATURES = {"none": [], "full": ["full"], "derive": ["derive"]}
 
 ENV = dict(os.environ)
 ENV["CARGO_NET_OFFLINE"] = "true"
